@@ -537,7 +537,7 @@ def cases(seed, tier):
     # special inputs: unknown name on an input that takes a shortcut; a callable that returns one of its input objects; a method key in bck_options
     for r in range(3 if tier == "quick" else 20):
         for kind, names in (("unknown_zero_rhs", ["solve"]), ("returns_input", ["rootfinder", "equilibrium", "minimize", "solve"]),
-                            ("bck_method_key", list(PROBLEMS))):
+                            ("bck_method_key", list(PROBLEMS)), ("unhashable_callable", list(PROBLEMS)), ("bck_unknown_name", list(PROBLEMS))):
             for name in names:
                 out.append({"group": "special", "kind": kind, "functional": name, "n": [3, 4, 6][r % 3], "seed": sub_seed(seed, "c18sp", kind, name, r)})
     for cls in ("Interp1D", "SQuad"):
@@ -791,6 +791,70 @@ def run_special(desc, obs):
             err = max(float((a - b).abs().max()) for a, b in zip(gc, gr))
             obs.check(err <= 1e-6 * sc, "returns_input:%s:%s" % (order, name), "%s with a callable that returns its input object differs from the built-in's by %.3e" % (order, err))
         obs.count("returns_input_compared")
+        obs.nontrivial = True
+        return
+    if kind == "unhashable_callable":
+        # a callable OBJECT that cannot be hashed (e.g. an instance of a dataclass with __call__): still a callable method
+        inner = P.closed()
+
+        class Unhashable(object):
+            __hash__ = None
+
+            def __eq__(self, other):
+                return self is other
+
+            def __call__(self, *a, **k):
+                return inner(*a, **k)
+        lv_c = P.leaves()
+        lv_r = {k: (v.detach().clone().requires_grad_() if isinstance(v, torch.Tensor) else v) for k, v in lv_c.items()}
+        bck = dict(P.bck_for_closed) if P.bck_for_closed else dict(P.bck_default or {})
+        opts = dict(getattr(P, "ref_opts", {}) or {})
+        try:
+            with WarnLog():
+                outs_r = P.call(lv_r, P.reference, dict(opts), dict(bck))
+        except Exception as e:
+            raise HarnessBug("built-in run failed for %s: %s: %s" % (name, type(e).__name__, e))
+        try:
+            with WarnLog():
+                outs_c = P.call(lv_c, Unhashable(), dict(opts) if name == "mcquad" else {}, dict(bck))
+        except Exception as e:
+            obs.exc_violation("unhashable_callable:" + name, e)
+            obs.nontrivial = True
+            return
+        go_c, go_r = P.gauge(outs_c), P.gauge(outs_r)
+        dist = max(float((a.detach() - b.detach()).abs().max()) for a, b in zip(go_c, go_r))
+        scale = max(1.0, max(float(o.detach().abs().max()) for o in go_r))
+        obs.check(dist <= max(P.tol, 1e-6) * scale, "unhashable_callable:value:" + name, "result with an unhashable callable object differs from the built-in's by %.3e" % dist)
+        obs.count("unhashable_callable_checked")
+        obs.nontrivial = True
+        return
+    if kind == "bck_unknown_name":
+        # an unknown method name given for the BACKWARD pass must be rejected too (at the call or at the backward pass), not silently replaced
+        lv = P.leaves()
+        bck = dict(P.bck_default or {})
+        bck["method"] = "no_such_method"
+        opts = dict(getattr(P, "ref_opts", {}) or {})
+        try:
+            with WarnLog():
+                # (plain exactsolve is differentiated by torch itself: no backward solver is ever selected there)
+                outs = P.call(lv, "bicgstab" if name == "solve" else P.reference, dict(opts), bck)
+                tg = torch.Generator().manual_seed(desc["seed"] + 1)
+                _contract(P.gauge(outs), [v for v in lv.values() if isinstance(v, torch.Tensor)], tg)
+        except (RuntimeError, TypeError, ValueError, KeyError) as e:
+            ok = "no_such_method" in str(e) or "nknown" in str(e) or "method" in str(e).lower()
+            obs.check(ok, "bck_unknown_name:other_error:" + name, "an unknown backward method name led to an unrelated error: %s: %s" % (type(e).__name__, str(e)[:100]))
+            obs.count("bck_unknown_name_rejected")
+            obs.nontrivial = True
+            return
+        except Exception as e:
+            obs.exc_violation("bck_unknown_name:" + name, e)
+            obs.nontrivial = True
+            return
+        # functionals whose backward never selects a solver by name (symeig / svd with the dense method) may ignore the entry
+        if name in ("symeig", "svd") and str(P.reference).lower() == "exacteig":
+            obs.count("bck_unknown_name_not_applicable")
+        else:
+            obs.violation("bck_unknown_name:accepted:" + name, "bck_options['method']='no_such_method' was accepted silently (forward %s, first and second order backward ran)" % P.reference)
         obs.nontrivial = True
         return
     # ---- bck_method_key: a built-in forward method with / without an explicit (equivalent) method entry in bck_options
